@@ -255,7 +255,7 @@ C30.theorems = ['CylcModel.C30.' + t for t in (
     'child_untouched', 'child_prereqs_unset', 'child_kept', 'child_unqueued', 'child_removed', 'child_leaves_iff',
     'history_erased', 'other_history_kept', 'history_forgotten', 'runs_again', 'erase_then_respawn',
     'others_untouched', 'kill_leaves_pool', 'removal_frame',
-    'erased_at_once_partial', 'erased_at_once_counterexample', 'erased_at_once_live',
+    'erased_at_once_partial', 'erased_at_once_counterexample', 'erased_at_once_live', 'repaired_is_quiet',
     'elsewhere_partial', 'elsewhere_counterexample', 'elsewhere_live',
     'respawn_partial', 'respawn_counterexample', 'respawn_live',
 )]
@@ -279,7 +279,8 @@ C30.statement_note = (
     'the kill of the removed jobs every pooled proxy outside the closure of the matched ids (ids, their graph children, the '
     'parentless successors of both) is the very same object (others_untouched, kill_leaves_pool, removal_frame); (6) the '
     'defects found, per probed behaviour flag: the history is erased when the per-id step returns only for the repaired code '
-    '(erased_at_once_partial / _counterexample / _live, and end to end on a concrete workflow: a task removed and needed again '
+    '(erased_at_once_partial / _counterexample / _live; the repaired code commits before the first id and after every one, so it '
+    'meets the "nothing queued" hypothesis of (4) by construction, repaired_is_quiet; and end to end on a concrete workflow: a task removed and needed again '
     'within one main loop is spawned again only by the repaired code, respawn_partial / _counterexample / _live); a matched '
     'id active in other flows only is handled like an inactive one only by the repaired code (elsewhere_partial / '
     '_counterexample / _live). NOT proved (covered by the trace correspondence and the judge only): (4) with other operations '
